@@ -72,6 +72,7 @@ cfgVars == <<kind, deps, roots, slow, inh>>
 actVars == <<st, inbox, pend, out, invalSlot, termSlot, launched, alive>>
 rootVars == <<hold, rootPhase, reqIdx, unavB, unavS, svcRoots, termRecv, exitStatus, errTarget>>
 envVars == <<signalled, sigUsed, inVer, gen, rec, cap, saw, outOf, notif, nChanges>>
+envNoCap == <<signalled, sigUsed, inVer, gen, rec, saw, outOf, notif, nChanges>>
 obsVars == <<nStart, nSkip, ready, failed, word, proc, viol, stale>>
 vars == <<cfgVars, actVars, rootVars, envVars, obsVars>>
 
@@ -255,6 +256,8 @@ ObsRecv(t, m, r) ==
                ELSE IF r.started THEN [failed EXCEPT ![t] = FALSE] ELSE failed
   /\ proc' = IF r.started THEN [proc EXCEPT ![t] = 1] ELSE IF r.svcFail THEN [proc EXCEPT ![t] = 0] ELSE proc
   /\ stale' = IF r.started \/ r.begun THEN [stale EXCEPT ![t] = {}] ELSE stale
+  \* what a service (re)start - successful or not - was decided on (for builds: BuildSpawn)
+  /\ cap' = IF r.started \/ r.svcFail THEN [cap EXCEPT ![t] = EffIn(t)] ELSE cap
 
 \* step monitors (C01, C07): evaluated on the pre-state plus the word just received
 WordAfter(t, m) == IF m.ty \in {"ok", "inv"} THEN [word[t] EXCEPT ![m.from][m.k] = m.ty] ELSE word[t]
@@ -282,7 +285,7 @@ Recv(t) ==
        /\ ObsRecv(t, m, r)
        /\ MonRecv(t, m, r)
   /\ inbox' = [inbox EXCEPT ![t] = Tail(@)]
-  /\ UNCHANGED <<cfgVars, invalSlot, termSlot, launched, alive, rootVars, envVars, nSkip>>
+  /\ UNCHANGED <<cfgVars, invalSlot, termSlot, launched, alive, rootVars, envNoCap, nSkip>>
 
 \* the target_invalidated_events arm (build and service actors only)
 RecvInval(t) ==
@@ -292,7 +295,7 @@ RecvInval(t) ==
        /\ Emit(t, r)
        /\ ObsRecv(t, [ty |-> "none"], r)
        /\ viol' = viol \cup (IF (r.started \/ r.svcFail \/ r.begun) /\ ~StartOK(t, word[t]) THEN {"StartSafe"} ELSE {})
-  /\ UNCHANGED <<cfgVars, inbox, termSlot, launched, alive, rootVars, envVars, nSkip>>
+  /\ UNCHANGED <<cfgVars, inbox, termSlot, launched, alive, rootVars, envNoCap, nSkip>>
 
 \* the termination_events arm
 RecvTerm(t) ==
@@ -642,7 +645,12 @@ Quiescent ==
                   /\ ~invalSlot[t] /\ ~notif[t] /\ st[t].bpc = "none"
   /\ hold = NoMsg /\ rootPhase = "looping" /\ ~signalled
 
-Blocked(t) == \E d \in TransDeps(t) \cup {t} : failed[d] \/ d \in slow
+\* t cannot be expected to be up to date: something it depends on failed or never finishes, or t itself never finishes,
+\* or the last execution of t failed AND that execution was decided on the current inputs ("re-run by an execution that
+\* started after the last relevant change": a failure before the last change does not excuse anything)
+Blocked(t) == \/ \E d \in TransDeps(t) : failed[d] \/ d \in slow
+              \/ t \in slow
+              \/ failed[t] /\ cap[t] = EffIn(t)
 
 UpToDate ==
   (Watch /\ Quiescent) =>
